@@ -63,7 +63,7 @@ class _Ctx:
             raise Unsupported("solver answered unknown on a branch-feasibility query")
         return r == "sat"
 
-    def branch(self, cond):
+    def branch(self, cond, payload=None):
         cond = z3.simplify(cond)
         if z3.is_true(cond):
             return True
@@ -82,12 +82,34 @@ class _Ctx:
                 val = False
             else:
                 raise _Infeasible()
-            self.plan.append([val, False])
+            self.plan.append([val, False, payload])
             c = cond if val else z3.Not(cond)
         self.pos += 1
         self.pc.append(c)
         self.solver.add(c)
         return val
+
+    def concretize(self, term, limit=64):
+        """Fork over the feasible values of an integer term (list index, range bound, hash ...).
+        The value tried at each plan position is recorded so that re-executions repeat it."""
+        t = z3.simplify(term)
+        if z3.is_int_value(t):
+            return t.as_long()
+        for _ in range(limit):
+            if self.pos < len(self.plan):
+                val = self.plan[self.pos][2]
+                if val is None:
+                    raise Unsupported("plan desynchronised at a concretisation point")
+            else:
+                r, m = self.check()
+                if r != "sat":
+                    if r == "unknown":
+                        raise Unsupported("solver answered unknown while concretising")
+                    raise _Infeasible()
+                val = m.eval(t, model_completion=True).as_long()
+            if self.branch(t == val, payload=val):
+                return val
+        raise Unsupported(f"more than {limit} feasible values for a concretised integer (unbounded payload reaches an index/range)")
 
     def assume(self, cond):
         """Constrain the rest of the path (e.g. a guard of a blocking call)."""
@@ -230,6 +252,8 @@ class SInt:
     def __mul__(self, o):
         if isinstance(o, (float, SReal)):
             return SReal(zreal(self) * zreal(o))
+        if isinstance(o, (tuple, list, str, bytes)):
+            return o * self.__index__()
         return SInt(self.t * zint(o))
 
     __rmul__ = __mul__
@@ -301,13 +325,13 @@ class SInt:
         return ctx().branch(self.t != 0)
 
     def __hash__(self):
-        raise Unsupported("hash of symbolic int")
+        return hash(self.__index__())
 
     def __index__(self):
         v = z3.simplify(self.t)
         if z3.is_int_value(v):
             return v.as_long()
-        raise Unsupported("concretisation of a symbolic int (__index__)")
+        return ctx().concretize(self.t)
 
     __int__ = __index__
 
@@ -619,7 +643,7 @@ def explore(fn, assumptions=(), max_paths=200000, timeout_ms=30000, stop_at_firs
             plan.pop()
         if not plan:
             return res
-        plan[-1] = [not plan[-1][0], True]
+        plan[-1] = [not plan[-1][0], True, plan[-1][2] if len(plan[-1]) > 2 else None]
 
 
 def model_int(model, term):
